@@ -98,6 +98,7 @@ class _BaseTemplateAttackDistinguisherMixin(base.DistinguisherMixin, partitioned
                 f'Trace size for matching {traces.shape[1]} is different than trace size used for building {self.pooled_covariance.shape[1]}.'
             )
         self._scores = _np.zeros(shape=(self._get_dimension(traces, data), ), dtype=self.precision)
+        self._data_to_template_index = partitioned._build_lut(_np.asarray(self.partitions))
 
     def _update(self, traces, data):
         scores = []
@@ -139,7 +140,11 @@ class TemplateDPADistinguisherMixin(_BaseTemplateAttackDistinguisherMixin):
         return data.shape[1]
 
     def get_template_index(self, data, i):
-        return data[:, i]
+        # Templates are stored in the order of the partitions: look the rows up by intermediate value.
+        indexes = self._data_to_template_index[data[:, i]]
+        if _np.any(indexes < 0):
+            raise base.DistinguisherError('Intermediate values for template matching must all be in the partitions used for building.')
+        return indexes
 
     @property
     def _distinguisher_str(self):
